@@ -32,6 +32,7 @@ type c16Case struct {
 	NPorts   int     `json:"port_ranges"`                        // single ports; >200 => chunks
 	PerMs    float64 `json:"rate_ms_per_probe"`                  // 0: no --rate; else the send phase is stretched beyond the exit delay
 	VPN      bool    `json:"vpn"`
+	ErrLine  bool    `json:"targets_from_a_file_with_a_bad_last_line"` // a non-fatal error occurs during the scan: the delay still applies
 	Seed     int64   `json:"rand_seed"`
 }
 
@@ -150,7 +151,17 @@ func c16Check(c c16Case) *kit.Verdict {
 	if len(ports) > 0 {
 		args = append(args, "-p", renderPorts(ports))
 	}
-	args = append(args, subnet.String())
+	if c.ErrLine && base != "arp" {
+		v.Label("error-during-scan")
+		var sb strings.Builder
+		for i := 0; i < naddr; i++ {
+			fmt.Fprintf(&sb, `{"ip":"%s"}`+"\n", gram.U32String(subnet.Base+uint32(i)))
+		}
+		sb.WriteString(`{"ip":"10.9.0.x"}` + "\n")
+		args = append(args, "-f", files.write("targets", sb.String()))
+	} else {
+		args = append(args, subnet.String())
+	}
 	res := runCmd(cmdRun{Args: args, Seed: c.Seed, World: vwire.NewWorld(sc), Timeout: d + 60*time.Second})
 	line := "sx " + strings.Join(args, " ")
 	if res.Hung {
@@ -219,7 +230,7 @@ func c16Check(c c16Case) *kit.Verdict {
 func TestC16ExitDelay(t *testing.T) {
 	kit.Run(t, kit.Spec[c16Case]{
 		Prop: "C16",
-		Rule: "full packet-scan commands (arp, icmp, udp, tcp syn/fin/null/xmas/--flags; Ethernet and raw-IP; 1..450 single-port ranges => 1..3 chunks; optionally --rate so that the send phase lasts longer than the exit delay) with --exit-delay 80..1200 ms; after the last probe of EVERY chunk a reply-shaped frame arrives at u*delay, u in [0,0.5]. Oracle: each late reply is delivered (socket still open) and reported; every chunk's socket stays open >= delay after its last probe; Execute() returns >= delay (one-sided, monotonic) and <= delay+10 s after the last probe; all printed lines are complete JSON. non-trivial: u > 0.05; distinct by case",
+		Rule: "full packet-scan commands (arp, icmp, udp, tcp syn/fin/null/xmas/--flags; Ethernet and raw-IP; 1..450 single-port ranges => 1..3 chunks; optionally --rate so that the send phase lasts longer than the exit delay; optionally the targets come from a file whose last line is bad, so that a non-fatal error occurs during the scan) with --exit-delay 80..1200 ms; after the last probe of EVERY chunk a reply-shaped frame arrives at u*delay, u in [0,0.5]. Oracle: each late reply is delivered (socket still open) and reported; every chunk's socket stays open >= delay after its last probe; Execute() returns >= delay (one-sided, monotonic) and <= delay+10 s after the last probe; all printed lines are complete JSON. non-trivial: u > 0.05; distinct by case",
 		Gen: func(t *rapid.T) c16Case {
 			c := c16Case{Cmd: rapid.SampledFrom(c01PacketCmds).Draw(t, "cmd"), Seed: rapid.Int64().Draw(t, "seed")}
 			c.ExitMs = rapid.SampledFrom([]int{80, 120, 200, 300, 500, 1200}).Draw(t, "exit")
@@ -237,6 +248,7 @@ func TestC16ExitDelay(t *testing.T) {
 			if base != "arp" {
 				c.VPN = rapid.Bool().Draw(t, "vpn")
 			}
+			c.ErrLine = base != "arp" && rapid.IntRange(0, 3).Draw(t, "errline") == 0
 			if rapid.IntRange(0, 2).Draw(t, "slow-send") == 0 && c.ExitMs <= 300 {
 				// stretch the send phase of (the first chunk of) the scan beyond the exit delay
 				n := (1 << uint(c.Addrs)) * max(1, min(c.NPorts, 200))
